@@ -219,10 +219,30 @@ Theorem C08_write_ports_compose : forall A c, cycle_ok c ->
 Proof. exact write_ports_compose. Qed.
 Print Assumptions C08_write_ports_compose.
 
+(* ---- translated fragments (re-proved against the source text on every run) -------- *)
+
+(* `if write_enable:` in Simulation._mem_update is "enable is non-zero" *)
+Theorem C08_mem_update_condition : forall w, mem_update_cond (w_en w) = enabled w.
+Proof. exact mem_update_cond_enabled. Qed.
+Print Assumptions C08_mem_update_condition.
+
+(* MemBlock._build, Simulation._mem_update and the C emitter agree on the operand positions *)
+Theorem C08_port_operands_agree : forall w,
+  sim_port (build_args w) = w /\ c_port (build_args w) = w.
+Proof. exact port_args_roundtrip. Qed.
+Print Assumptions C08_port_operands_agree.
+
+(* create_hash_map(<size>, limbs) has at least one bucket, as the theorems above require *)
+Theorem C08_c_size_positive : (0 < c_size)%nat.
+Proof. exact c_size_positive. Qed.
+Print Assumptions C08_c_size_positive.
+
 (* ---- ROM ---------------------------------------------------------------------- *)
 
 (* 0 <= a < 2^aw -> _get_read_data = data[a]  (0 if padded, error otherwise; a value
-   outside [0, 2^bw) is an error) for list, dict and function data *)
+   outside [0, 2^bw) is an error) for list, dict and function data.  rom_read uses the
+   address guard, the value guard and the padded values TRANSLATED from the source
+   (Gen/MemFrag.v): editing any of them in memory.py re-checks or breaks this proof. *)
 Theorem C08_rom : forall aw bw pad data a, 0 <= bw -> 0 <= a < 2 ^ aw ->
   rom_read aw bw pad data a = rom_spec bw pad data a.
 Proof. exact rom_read_spec. Qed.
